@@ -1,7 +1,8 @@
 ---- MODULE AssetLayout_Trace ----
 (* Binding B2 for generated animations (both versions) and meshes.  Records:                             *)
 (*  Anim {ver:[maj,min], emote:len, joints:[{name:len, rot:n, pos:n}..], ncons, size, bytes:[.. or empty], *)
-(*        rt_model, rt_bytes}   model A1 = from_bytes(to_bytes(generated)); bytes = to_bytes(A1);        *)
+(*        prio, loop, hand, jprio:[..]  scalar fields of the generated model (full wire domain),         *)
+(*        rt_model, rt_bytes}   model A1 = from_bytes(bytes), bytes = to_bytes(generated model);          *)
 (*        rt_model = (from_bytes(bytes) == A1), rt_bytes = (to_bytes(from_bytes(bytes)) == bytes),       *)
 (*        rt_exact = the exactly representable part of the generated model equals that part of A1     *)
 (*  Mesh {segs:[{name, offset, size}..], body, rt_model, rt_bytes}  header of the serialised asset       *)
@@ -27,6 +28,12 @@ TAnim == /\ IsEvent("Anim") /\ UNCHANGED <<tid, mvars>>
                  /\ Chk("anim: joint count position", At(Rec.bytes, JointCountAt(Rec.emote), 4) = LE(Len(Rec.joints), 4))
                  /\ Chk("anim: constraint count position",
                         At(Rec.bytes, ConstraintCountAt(ver, Rec.emote, Rec.joints), 4) = LE(Rec.ncons, 4))
+                 /\ Chk("anim: base priority on the wire", At(Rec.bytes, PriorityAt, 4) = S32LE(Rec.prio))
+                 /\ Chk("anim: loop flag on the wire", At(Rec.bytes, LoopAt(Rec.emote), 4) = S32LE(Rec.loop))
+                 /\ Chk("anim: hand pose on the wire", At(Rec.bytes, HandPoseAt(Rec.emote), 4) = U32LE(Rec.hand))
+                 /\ \A k \in 1..Len(Rec.joints) :
+                       Chk("anim: joint priority on the wire",
+                           At(Rec.bytes, JointPriorityAt(ver, Rec.emote, Rec.joints, k), 4) = S32LE(Rec.jprio[k]))
                  /\ Chk("anim: emote name terminator", At(Rec.bytes, 12 + Rec.emote, 1) = <<0>>)
             /\ Chk("anim: laws", VersionLaw(Rec.emote, Rec.joints, Rec.ncons))
          /\ Chk("anim: parse(serialise(model)) differs from the model", Rec.rt_model)
